@@ -11,11 +11,11 @@ CLAIMED = {
         'Coq proof (induction over histories, frame/isolation lemma over all schedules) of a hand-written '
         'Gallina state machine + differential correspondence with the real Config/InverseOperator/threads',
         'All well-nested histories of any depth and all thread schedules are covered by theorems about the model '
-        '(restore, innermost_wins, ends_with_defaults, capture, capture_effect / effects_determine_every_setting, capture_everywhere (any object derived from an inverse by reduce / composition / blocks / round trip / .I.I, applied through any route incl. jit arguments), thread_isolation); the model is tied to the code by '
-        'the event language separates BUILDING a Config object (its values are replace(configuration active at build, kwargs)) from ENTERING it '
+        '(restore, innermost_wins, ends_with_defaults, capture, capture_effect / effects_determine_every_setting, capture_everywhere (any object derived from an inverse by reduce / composition / blocks / round trip / .I.I, applied through any route incl. jit arguments), thread_isolation). '
+        'The event language separates BUILDING a Config object (its values are replace(configuration active at build, kwargs)) from ENTERING it '
         '(preset_holds_build_time_configuration, preset_block_scopes_and_restores_enter_time, reentered_preset_block, capture_inside_preset_block, '
         'handed_thread_has_defaults: objects entered at several depths, re-entered while open, handed to other threads); fail-closed AST tie on '
-        'Config.__init__/__enter__/__exit__/instance; applying inverses must leave every stored and active configuration unchanged (independent record); '
+        'Config.__init__/__enter__/__exit__/instance; applying inverses must leave every stored and active configuration unchanged (independent record). The model is tied to the code by '
         'running the same histories (exhaustive up to 5-6 events, plus seeded random, plus all interleavings of short '
         'thread histories on real threads) on the real code and on the model evaluated by vm_compute; every captured '
         'setting is observed through its EFFECT on op.I(y) (failing and converging solves identified against NumPy CG references).',
@@ -34,7 +34,7 @@ CLAIMED = {
         'and output structures (every rule family, the scalar/identity rules, the scan and the nested block reductions); '
         'reduce_total: reduce returns an operator - never an exception - within the fuel the harness uses, by the measure '
         '4|ops|^3 + 2 inv(ops) + (|ops| - index) per scan and a nesting weight - model level, all inputs. The model is tied to the code by '
-        'regenerated tables (compiled and compared on every run) and by running reduce() of ~2400 (quick) / ~15000 '
+        'regenerated tables (compiled and compared on every run) and by running reduce() of ~4400 (quick) / ~41000 '
         '(thorough) real expressions against the vm_compute-evaluated model, with the dense matrix of reduce(e) also '
         'compared with that of e on the implementation.',
         'All three clauses are proved at model level: reduce_total / reduce_no_exception (termination within an explicit fuel, '
@@ -116,7 +116,8 @@ CLAIMED = {
         '8192 / 2^20, index corners, longitudes one ulp below 0; a mismatch is reported as VIOLATION), not a theorem. Resolutions that are not '
         'powers of two are included: there world2index disagrees with healpy in the equatorial belt (jax_healpy masks the in-ring index instead '
         'of reducing it modulo 4 nside) - recorded as the known finding healpix-nside-not-power-of-two-equatorial-belt (KNOWN-FINDING line, exit 0; '
-        'any mismatch without exactly that signature is still a VIOLATION).',
+        'any mismatch without exactly that signature is still a VIOLATION); Props/C17Ring.v (ring_mask_is_mod_for_pow2, ring_mask_refuted_nside3, '
+        'ring_mask_loses_positions_nside3) states the arithmetic boundary of that finding - a model of the dependency, not of furax.',
         'Trusts Gallina specs of jnp.round, astype saturation, int32/int64 wrap, unique/scatter-add (compared with JAX), '
         'coordinates as exact rationals, jax_healpy.ang2pix not modelled (healpy clause partial), the harness, Coq kernel.',
         'DESIGN.md section 4, C17',
@@ -126,11 +127,11 @@ CLAIMED = {
         'Homothety and lazy-inverse operators and every construction shortcut) denote the product / sum / difference / '
         'negation / scalar multiples of their operands for operands of any class and any grouping, that results are '
         'well-formed with the implied structures, and that mismatching operands are rejected with ValueError; '
-        'differential correspondence of the real dunders on every compatible operand pair of an 85-operand alphabet',
+        'differential correspondence of the real dunders on every compatible operand pair of a ~117-operand alphabet',
         'matmul_sound, matmul_structs, matmul_mismatch_rejected, matmul_assoc, add_sound (flattening incl.), add_structs, '
         'add/sub_mismatch_rejected, smul/sdiv/neg/sub_sound, smul_structs: all operands, all inputs (model level), closed '
         'under the global context. Tie: C-tie comparing outcome kind, result skeleton (classes, operand identities, merged '
-        'scalars), structures and dense matrix of ~3700 (quick) real expressions with the model; wfo (constructor '
+        'scalars), structures and dense matrix of ~6300 (quick) real expressions with the model; wfo (constructor '
         'guarantees) evaluated on every encoded real operand; oracle NumPy arithmetic on operand matrices.',
         'Trusts leaf_facts for opaque leaves (homogeneity, lazy inverse inverts), CPython operator protocol as folded into '
         'the model, harness-assigned identities, float32 vs exact rationals on dyadic inputs; NumPy non-scalar array '
@@ -177,8 +178,8 @@ CLAIMED = {
         'unique/counts/scatter multiplicity pipeline proved correct; differential correspondence with NumPy oracle',
         'index_T_is_scatter_add, PPt_identity_iff, PtP_multiplicity, slice_selects_distinct_in_range, '
         'unique_inference_sound, multiplicity_code_correct (+ raw-value refuted witness = pre-fix defect), PtP_rule_sound, '
-        'indexed_axes_spec, reduce_identity_only_if_noop, pack_is_index_by_mask, pack_unpack_rule_sound, ctor theorems: 32 '
-        'theorems closed under the global context. Tie: C-tie on ~2100 (quick) index expressions x shapes incl. reductions.',
+        'indexed_axes_spec, reduce_identity_only_if_noop, pack_is_index_by_mask, pack_unpack_rule_sound, ctor theorems: all obligations (count in the evidence file) '
+        'closed under the global context. Tie: C-tie on ~3200 (quick) index expressions x shapes incl. reductions.',
         'Tuples with two or more array entries (several integer arrays, mask + array, several masks: NumPy advanced indexing with '
         'broadcasting and the adjacency rule) are MODELLED (index_adv) and covered by unique_inference_sound (now for every tuple), '
         'index_T_is_scatter_add_any_tuple, PPt_identity_iff_any_tuple, PPt_rule_sound_when_inferred, gather_positions_in_range, '
@@ -265,7 +266,7 @@ CLAIMED = {
         'block_transposes(+adjoint), blockdiag_inverse(_sound), ctor_ok_iff, ctor_rejects_mismatch, '
         'block_rules_fire_iff_same_treedef, block_rules_sound, row_col_is_sum, ctor_rejects_other_container, lazy_transpose_inverse, blockdiag_steps (any .T/.I sequence is taken block by block): all obligations (count in the evidence file) closed under the global '
         'context, nothing partial. Tie: C-tie on 9 container shapes x ~25 block kinds and all compatible pairs of ~50 block '
-        'operators (592 quick / 1808 thorough cases); oracle-only dtype-changing blocks (every ordered pair of data / matrix dtype incl. x64) for the '
+        'operators (~2000 quick / ~10600 thorough cases); oracle-only dtype-changing blocks (every ordered pair of data / matrix dtype incl. x64) for the '
         'three block kinds x nine containers; mismatch cases record construction separately from later use (refusal must happen AT construction).',
         'Matrix forms assume each block acts as a matrix (shown for the measured-matrix leaves of Exec by '
         'exec_table_leaf_acts_as); adjointness of leaf pairs is C03; iterative InverseOperator blocks compared structurally '
@@ -282,7 +283,7 @@ CLAIMED = {
         'out_structure_honest, application_defined, sizes_agree, block_sizes, promoted_dtype_is_join, '
         'out_structure_honest_dtypes, declared_is_evaluated, composite_structs, transpose_structs, exec_leaf_honest/defined: '
         'all obligations (count in the evidence file) closed under the global context (incl. the shape model of the diagonal constructors: diagonal_ctor_honest). Tie: C-tie on every class x layouts x data dtype {f32,f64,i32,mixed} '
-        'x parameter dtype x x64 on/off: out_structure() vs eval_shape vs actual mv(x) vs model (1336 quick / 5460 thorough); axis operators '
+        'x parameter dtype x x64 on/off: out_structure() vs eval_shape vs actual mv(x) vs model (~6000 quick / ~52000 thorough); axis operators '
         '(ravel, reshape, move-axis, index, diagonal, pack) on pytrees whose leaves have DIFFERENT ranks, both leaf orders, alone / reduced / in 18 contexts, '
         'compared with Model/Axes.v and NumPy per leaf (axes_reduce_keeps_structures, axes_reduce_identity_needs_all_leaves); T-tie Props/Tables.v '
         '(which classes override out_structure / in_structure / reduce / transpose / inverse).',
@@ -310,7 +311,7 @@ CLAIMED = {
         'each call must meet ITS tolerance), cg-solvers (every lineax solver class with and without max_steps under furax\'s DEFAULT callback), '
         'mixed-* (closed-form inverses under x64 on/off x parameter dtype x data dtype with parameters up to 1e6).',
         'Partial: "A.I(y) solves A z = y to the solver tolerance" is a floating-point convergence statement about lineax CG: '
-        'tested on 132 (quick) SPD systems with three solver settings, not proved. Algebra.inverse of the shared core is not recursive on nested '
+        'tested on ~400 (quick) SPD solves (kinds cg, cg-nested, cg-seq, cg-solvers), not proved. Algebra.inverse of the shared core is not recursive on nested '
         'block-diagonals; C06 uses inverse_r with an agreement lemma.',
         'DESIGN.md section 4, C06',
     ),
@@ -328,9 +329,14 @@ CLAIMED = {
         'premises; as_matrix_resolution_as_modelled ties the dispatch to the regenerated method table. All obligations closed under the global context. Tie: T-tie Props/Tables.v; C-tie on ~790 (quick) / ~7200 (thorough) operators incl. complex and mixed dtypes, all Toeplitz methods: '
         'op.as_matrix(), AbstractLinearOperator.as_matrix(op), the mv(e_j) matrix, linearity probes, vs x_as_matrix / '
         'x_generic / Exec.mat.',
-        'Partial: override_eq_generic carries the premises HON (C05 honesty, derivable via honesty_premise_from_C05) and the '
-        'leaf-level premises HOV / HRESH / HINV / HSOLVE; array-level '
-        'leaf overrides rest on C09/C11 (their own models). lin_facts IS discharged for the executable semantics '
+        'For abstract leaves override_eq_generic carries the premises HON (C05 honesty, derivable via honesty_premise_from_C05) and the '
+        'leaf-level premises HOV / HRESH / HINV / HSOLVE; for the EXECUTABLE semantics they are discharged (Props/C04Exec.v, Lemmas/AsMatrixOvL.v: '
+        'exec_override_eq_generic[_min], exec_override_eq_generic_full[_min], exec_override_represents, x_minv_inverts / x_minv_complete; HSOLVE not '
+        'needed) under decidable wfo, dtable_okb (implied by table_okb), otable_okb evaluated by vm_compute on every compared case; Props/C04Leaf.v '
+        'proves the otable_okb condition outright for closed-form 1-d diagonals and from the identity table matrix for ravel / reshape; measured n-d '
+        'Diagonal / Toeplitz / DiagonalInverse overrides stay run-time checks inside otable_okb and array-level '
+        'leaf overrides rest on C09/C11 (their own models). Call-style probes (op(x) and op.mv(x) with jax / NumPy / Python leaves of declared and '
+        'wider dtypes) are oracle-only. lin_facts IS discharged for the executable semantics '
         '(Props/ExecFacts.v: exec_lin_facts, exec_denote_linear, exec_apply_is_matvec under the decidable table_okb, which the '
         'C01 run evaluates on every real expression). Trusts measured leaf '
         'matrices, textbook hstack/vstack/block_diag/inv, float32 snapped to rationals; dtypes not modelled here (C05).',
@@ -349,7 +355,7 @@ CLAIMED = {
         'exec_transpose_is_adjoint, table_transpose_is_adjoint, fresh_lazy_transpose_is_adjoint: all obligations (count in the evidence file) closed under '
         'the global context. Tie: C-tie on ~160 operands (einsum variants incl. repeated letters, axes, index, diagonal, '
         'Toeplitz, obs-matrix, explicit TransposeOperators) in 10 contexts: skeleton, structures, dense matrices of e.T and '
-        'e.T.T, integer-probe inner products (1314 quick / 14874 thorough).',
+        'e.T.T, integer-probe inner products (~3000 quick / ~25600 thorough).',
         'The matrix form mat(e.T) = mat(e)^T is a theorem for the executable semantics (Props/C03Mat.v: harness_transpose_matrix, '
         'harness_transpose_involutive_matrix, exec_transpose_matrix; 18 statements) under decidable hypotheses (wfo, sym_square, table_okb, '
         'ptable_okb, transposeT_okb) that are evaluated by vm_compute on every model-compared case and must be true; a selfT stream covers every '
